@@ -5,9 +5,11 @@
 package main
 
 import (
+	"encoding/json"
 	"flag"
 	"fmt"
 	"os"
+	"path/filepath"
 	"sort"
 	"strconv"
 	"strings"
@@ -20,7 +22,43 @@ var (
 	seed = flag.Uint64("seed", 1, "seed")
 	tier = flag.String("tier", "quick", "quick|thorough")
 	dir  = flag.String("dir", ".", "output directory")
+	corp = flag.String("corpus", "", "directory of corpus histories (*.json), run first")
 )
+
+// corpus file: {"name": ..., "txs": [[{"K": "OIssue", "A": 1, ..., "Repeat": 200}, ...], ...]}
+type corpusOp struct {
+	Op
+	Repeat int
+}
+type corpusHistory struct {
+	Name string
+	Txs  [][]corpusOp
+}
+
+func loadCorpus(dirname string, sum *lib.Summary) []corpusHistory {
+	if dirname == "" {
+		return nil
+	}
+	files, _ := filepath.Glob(filepath.Join(dirname, "*.json"))
+	sort.Strings(files)
+	var out []corpusHistory
+	for _, f := range files {
+		b, err := os.ReadFile(f)
+		var h corpusHistory
+		if err == nil {
+			err = json.Unmarshal(b, &h)
+		}
+		if err != nil {
+			sum.Fail("harness-corpus", "cannot read corpus file "+f+": "+err.Error(), map[string]any{"file": f})
+			continue
+		}
+		if h.Name == "" {
+			h.Name = filepath.Base(f)
+		}
+		out = append(out, h)
+	}
+	return out
+}
 
 func main() {
 	flag.Parse()
@@ -194,7 +232,29 @@ func c25(sum *lib.Summary) {
 		}
 	}
 
-	// fixed scenarios first
+	// corpus histories first, then the fixed scenarios
+	for _, ch := range loadCorpus(*corp, sum) {
+		var txs [][]Op
+		for _, t := range ch.Txs {
+			var ops []Op
+			for _, co := range t {
+				n := co.Repeat
+				if n < 1 {
+					n = 1
+				}
+				for i := 0; i < n; i++ {
+					ops = append(ops, co.Op)
+				}
+			}
+			txs = append(txs, ops)
+		}
+		handle("corpus:"+ch.Name, func(_ *tracker, i int) []Op {
+			if i < len(txs) {
+				return txs[i]
+			}
+			return nil
+		})
+	}
 	sc := scenarios()
 	var names []string
 	for n := range sc {
@@ -211,7 +271,7 @@ func c25(sum *lib.Summary) {
 		})
 	}
 
-	nh := 80
+	nh := 60
 	if thorough {
 		nh = 1200
 	}
